@@ -1840,6 +1840,9 @@ class Exec:
                 fr.locals["exc"] = excv
                 for clause in c.post_exc.get(exc_name, []):
                     self.assume(self.spec_bool(clause, fr))
+                if c.post_exc.get(exc_name) and self.check_sat([]) == z3.unsat:
+                    # the callee's exceptional postcondition rules this outcome out for these arguments
+                    raise PathEnd(f"contract of {c.target} excludes {exc_name} here")
                 raise RaiseSig(excv)
         self.havoc_modifies(c, fr)
         res = c.returns.fresh(self, f"ret_{tag}") if c.returns is not None else None
